@@ -614,7 +614,8 @@ class Writer(object):
         if nl is None:
             nl = sp(p + '.nl', ['\n', '\r\n'])
         tb = lambda q: sp(q + '.tb', ['', ' ', '  '])  # noqa: E731  trailing blanks before the line end
-        s = 'ver:' + self.string(ver, p + '.ver') + self.meta(meta, p + '.meta', ver) + tb(p + '.hdr') + nl
+        # the version string is always spelled plainly (escapes inside it are not part of the claimed alphabet)
+        s = 'ver:"%s"' % ver + self.meta(meta, p + '.meta', ver) + tb(p + '.hdr') + nl
         line = ''
         for i, (c, cm) in enumerate(cols):
             if i:
